@@ -207,6 +207,37 @@ def numbering(check, P):
             check.violation("R3", "resend:window", f"with resendfrom=3 and lineno=5 pending, _sendnext sends {[s_.data['args'][1:] for s_ in sends]} and leaves "
                             f"resendfrom={pc.fields.get('resendfrom')!r}; the requested line must be re-sent before anything else", [decisions_text(path, 14)])
     check.floor(win >= 1, "C15.R3: no path inside the resend window")
+    # the resent line can itself be corrupted: the same line number is requested again
+    def setup_repeat(I_):
+        setup(I_)
+        pc = I_.heap[W.ref("pc").addr]
+        lines = ADict(entries={Const(k).v: Unk(f"sent-line-{k}", "str") for k in range(5)}, label="pc.sentlines")
+        pc.fields.update(resendfrom=Const(3), lineno=Const(5), sentlines=I_.alloc(lines))
+
+    def twice(I_, _):
+        W.call_method(I_, "pc", "_sendnext", ())
+        pc = I_.heap[W.ref("pc").addr]
+        pc.fields["resendfrom"] = Const(3)       # what the listener stores when 'Resend: 3' arrives again
+        pc.fields["clear"] = TRUE
+        W.call_method(I_, "pc", "_sendnext", ())
+        return NONE
+    rep = 0
+    for path in I.explore(setup_repeat, twice, max_dev=None, max_paths=5000):
+        n += 1
+        sends = calls(path, "printcore._send")
+        d = [decisions_text(path, 14)]
+        if path.outcome != "return":
+            rep += 1
+            check.violation("R3", f"resend:repeat:{path.value.cls}", f"a second 'Resend: 3' (the resent line was corrupted again) makes _sendnext raise {path.value.cls} in {path.raise_site[0]}: "
+                            "the stored line is gone, the print thread dies and the job stops short", d)
+            continue
+        rep += 1
+        got = [s_.data["args"][1] for s_ in sends]
+        if got == [Unk("sent-line-3", "str"), Unk("sent-line-3", "str")]:
+            check.ok("R3", "the same line can be requested and re-sent twice")
+        else:
+            check.violation("R3", "resend:repeat", f"two consecutive 'Resend: 3' requests lead to the sends {got}; expected the stored line 3 both times", d)
+    check.floor(rep >= 1, "C15.R3: repeated-resend sequence has no path")
     # startprint: reset + M110 before the print thread starts
     W2 = pc_world(P)
     I2 = W2.I
